@@ -36,26 +36,7 @@ return self.{slot}
 """
 
 
-def check(run, M, tier):
-    run.rule("N1", "Linop._normal_linop returns self.H * self (adjoint first); properties N/H return the cached result of _normal_linop()/_adjoint_linop()")
-    run.rule("N2", "an overriding _normal_linop returns A^H A or an Identity/self shortcut; the shortcut is admissible only for unitary primitives "
-                   "and only if _apply passes no normalisation/shape override")
-    run.rule("N3", "NUFFT Toeplitz path: chain is an adjoint palindrome around Multiply(psf); psf = toeplitz_psf(self.coord, self.ishape, self.oversamp, self.width); "
-                   "R = Resize(psf.shape, self.ishape); FFT over the last ndim axes; the non-Toeplitz path is A^H A")
-    run.rule("N3b", "toeplitz_psf (anchor sigpy/fourier.py:219-263) evaluates nufft_adjoint(nufft(delta)) on the 2x grid of the *whole* input shape with one "
-                    "(new_coord, oversamp, width), then the unnormalised FFT over the last ndim axes times 2^ndim (same comparison as C06/U4)")
-    run.rule("N4", "no Linop class defines __iadd__/__imul__, so `AHA += ...` in the apps rebinds instead of mutating the cached A.N")
-    from .c06 import REF_PSF, _cmp, psf_instances_equal
-    from ..linopdesc import havoc_loop as _hl
-    if psf_instances_equal(M):
-        run.ok("N3b", "sigpy.fourier.toeplitz_psf", "equals the documented pipeline for every rank instance (1-3 transform dimensions, 0-2 batch axes, symbolic sizes)",
-               M.func("sigpy.fourier.toeplitz_psf").loc())
-    else:
-        _cmp(run, M, "N3b", "sigpy.fourier.toeplitz_psf", REF_PSF, loop_hook=_hl)
-    alg = LinAlg(M)
-    base = M.cls("sigpy.linop.Linop")
-
-    # ---- N1
+def _n1(run, M, alg, base):
     f = M.method(base, "_normal_linop", inherit=False)
     if f is None:
         raise AnchorMissing("Linop._normal_linop")
@@ -80,6 +61,30 @@ def check(run, M, tier):
         run.check(same, "N1", "Linop." + prop, pf.loc(), "property %s returns the cached result of self.%s()" % (prop, meth),
                   "property %s does not have the form `if self.%s is None: self.%s = self.%s(); return self.%s`" % (prop, slot, slot, meth, slot),
                   stmt=pf.node.body[-1])
+
+
+
+def check(run, M, tier):
+    run.rule("N1", "Linop._normal_linop returns self.H * self (adjoint first); properties N/H return the cached result of _normal_linop()/_adjoint_linop()")
+    run.rule("N2", "an overriding _normal_linop returns A^H A or an Identity/self shortcut; the shortcut is admissible only for unitary primitives "
+                   "and only if _apply passes no normalisation/shape override")
+    run.rule("N3", "NUFFT Toeplitz path: chain is an adjoint palindrome around Multiply(psf); psf = toeplitz_psf(self.coord, self.ishape, self.oversamp, self.width); "
+                   "R = Resize(psf.shape, self.ishape); FFT over the last ndim axes; the non-Toeplitz path is A^H A")
+    run.rule("N3b", "toeplitz_psf (anchor sigpy/fourier.py:219-263) evaluates nufft_adjoint(nufft(delta)) on the 2x grid of the *whole* input shape with one "
+                    "(new_coord, oversamp, width), then the unnormalised FFT over the last ndim axes times 2^ndim (same comparison as C06/U4)")
+    run.rule("N4", "no Linop class defines __iadd__/__imul__, so `AHA += ...` in the apps rebinds instead of mutating the cached A.N")
+    from .c06 import REF_PSF, _cmp, psf_instances_equal
+    from ..linopdesc import havoc_loop as _hl
+    if psf_instances_equal(M):
+        run.ok("N3b", "sigpy.fourier.toeplitz_psf", "equals the documented pipeline for every rank instance (1-3 transform dimensions, 0-2 batch axes, symbolic sizes)",
+               M.func("sigpy.fourier.toeplitz_psf").loc())
+    else:
+        _cmp(run, M, "N3b", "sigpy.fourier.toeplitz_psf", REF_PSF, loop_hook=_hl)
+    alg = LinAlg(M)
+    base = M.cls("sigpy.linop.Linop")
+
+    # ---- N1
+    _n1(run, M, alg, base)
 
     # ---- N2 / N3
     classes = [c for c in sorted(alg.classes.values(), key=lambda c: c.node.lineno) if c.mod.name == "sigpy.linop"]
